@@ -1,6 +1,7 @@
 package main
 
 import (
+	"regexp"
 	"fmt"
 	"os"
 	"path/filepath"
@@ -175,6 +176,7 @@ func runC09(e *env) error {
 				rev = append([]string{"./" + d}, rev...)
 			}
 			dup = append(append([]string{}, pats...), pats...)
+			priorMode := ""
 			run := func(variant, tag string, dir func(root string) string, args func(root string) []string, prior bool) {
 				root, snap, err := fresh(tag)
 				if err != nil {
@@ -183,6 +185,24 @@ func runC09(e *env) error {
 				}
 				if prior {
 					scratch.Run(bin, root, append([]string{"gen"}, pats...), nil, 120*time.Second)
+					// the previous output as left behind by an OLDER configuration: same header and build constraint, but another
+					// package clause / other declarations / a cut-off body. None of it may become an input of the next run.
+					for rel, content := range collectOutputs(root, snap) {
+						if !strings.HasSuffix(rel, ".go") {
+							continue
+						}
+						switch priorMode {
+						case "otherclause":
+							content = regexp.MustCompile(`(?m)^package \w+`).ReplaceAllString(content, "package olderapi")
+						case "stale":
+							content += "\n\nfunc StaleHelperOfAnOlderRun() int { return 1 }\n\ntype StaleImpl struct{ X int }\n"
+						case "cutoff":
+							if k := strings.Index(content, "func "); k > 0 {
+								content = content[:k] + "func ("
+							}
+						}
+						_ = os.WriteFile(filepath.Join(root, rel), []byte(content), 0o644)
+					}
 				}
 				a := args(root)
 				res := scratch.Run(bin, dir(root), a, nil, 120*time.Second)
@@ -209,6 +229,11 @@ func runC09(e *env) error {
 				func(root string) []string { return append([]string{"gen", "-cwd", filepath.Base(root)}, pats...) }, false)
 			run("relocated", "reloc/deeper/place", inRoot, plain(pats), false)
 			run("over-previous-output", "hist", inRoot, plain(pats), true)
+			for _, pm := range []string{"otherclause", "stale", "cutoff"} {
+				priorMode = pm
+				run("over-previous-output-"+pm, "hist"+pm, inRoot, plain(pats), true)
+			}
+			priorMode = ""
 		}(i, dc)
 	}
 	wg.Wait()
